@@ -31,7 +31,7 @@ ANYF == -2   \* expected blank of unconstrained face
 ANY == [c |-> ANYC, f |-> -1, w |-> 1]
 
 \* Paint(surf): expected screen grid.  Cells whose meaning is ambiguous
-\* (overlapping footprints; a wide character straddling a footprint edge)
+\* (overlapping footprints; a visible wide character whose right half is under an image)
 \* are left unconstrained: for them only the from-scratch comparison applies.
 Paint(surf) ==
   [r \in Rows |->
@@ -44,7 +44,7 @@ Paint(surf) ==
              ELSE IF Cardinality(cv) = 1
                   THEN LET q == CHOOSE q \in cv : TRUE IN [c |-> Sp, f |-> surf[q[1]][q[2]].f, w |-> 1]
                   ELSE [c |-> Sp, f |-> ANYF, w |-> 1]
-          ELSE IF k >= 2 /\ IsWide(surf[r][k-1]) /\ Cover(surf, <<r, k-1>>) # {} THEN ANY
+          \* (a wide character hidden under an image casts no shadow: the cell right of the image shows its own content)
           ELSE IF shadowOf THEN SCont
           ELSE IF k \in L THEN
                  IF IsWide(surf[r][k]) /\ k + 1 <= W /\ Cover(surf, <<r, k + 1>>) # {} THEN ANY
@@ -67,8 +67,10 @@ Matches(s, surf) ==
 \* a surface is ambiguous when some cell has no single meaning
 Ambiguous(surf) ==
   \/ \E p \in Pos : Cardinality(Cover(surf, p)) > 1
+  \* a VISIBLE wide character whose right half lies under an image (a wide character that is itself under an
+  \* image is simply hidden, like every cell under an image)
   \/ \E r \in Rows, k \in 1..(W - 1) :
-        IsWide(surf[r][k]) /\ (Cover(surf, <<r, k>>) # {} \/ Cover(surf, <<r, k + 1>>) # {})
+        IsWide(surf[r][k]) /\ Cover(surf, <<r, k>>) = {} /\ Cover(surf, <<r, k + 1>>) # {}
 InDomain(surf) == \A r \in Rows : ~IsWide(surf[r][W])
 
 \* differential oracle: two screens show the same thing (an orphan is a
